@@ -140,7 +140,23 @@ def oracle_kauri(case):
             "note": {"labels": labels.tolist()[:12], "score": sc}}
 
 
+@st.composite
+def large_case(draw):
+    cls = draw(st.sampled_from(["LinearModel", "LinearMMD", "MLPModel", "SparseLinearModel", "CategoricalModel", "Douglas", "RIM", "KernelRIM"]))
+    s = draw(E.est_spec(classes=[cls], n_max=12, d_max=3, iter_max=2, k_max=4, hidden_max=4, n_min=4, cuts_max=2,
+                        gem_names=["mi", "kl_ovo", "tv_ovo", "hellinger_ova", "chi2_ovo", "mmd_ova", "mmd_ovo"], allow_instance=False,
+                        kernel_forms=("named", "precomputed"), xkinds=("normal",)))
+    s["n"] = draw(st.integers(1030, 2300))
+    if "batch_size" in s:
+        s["batch_size"] = draw(st.sampled_from([None, 1024, 1025, 500]))
+    return {"spec": s, "dtype": "float64"}
+
+
 def subs():
+    return [Sub("fit_large_n", large_case(), oracle_grad, 16, 300, "coherence of fits on 1030-2300 samples")] + _subs()
+
+
+def _subs():
     fam = {"linear": ["LinearModel", "LinearMMD", "LinearWasserstein", "RIM", "KernelRIM"],
            "mlp": ["MLPModel", "MLPMMD", "MLPWasserstein"], "sparse": E.SPARSE, "categorical": E.CATEGORICAL,
            "douglas": ["Douglas"]}
